@@ -13,7 +13,7 @@ class C04(SessionCheck):
             'point of the worker loop, 0-6 outstanding requests, over 3 transports x 14 profiles, compared step by step with the model; '
             '(incl. EOF in the middle of a message whose start tag has arrived, under both framings) plus real-socket sessions (1.0-only and 1.1 servers alternating) whose server closes at EVERY byte offset of a scripted response stream (quick: a sample of offsets; '
             'thorough: every offset) or after the k-th request, with client threads issuing requests meanwhile; elapsed time of every call measured. '
-            'A peer that trickles notifications or the reply in pieces for several timeouts; a stalled peer with a burst of 64 asynchronous requests and a synchronous call; DEPENDS operations and close_session after the loss. Non-trivial = history >= 8 commands / socket run with >= 2 calls.')
+            'A peer that trickles notifications or the reply in pieces for several timeouts; a stalled peer with a burst of 200 asynchronous requests and a synchronous call; DEPENDS operations and close_session after the loss. Non-trivial = history >= 8 commands / socket run with >= 2 calls.')
     ASSUMPTIONS = ['a request created after the worker delivered its final error but before the session is marked disconnected is not failed; '
                    'it times out (model: lateBorn) - allowed by the statement (returns within its timeout)']
 
@@ -32,9 +32,9 @@ class C04(SessionCheck):
             out.append({'kind': 'e2e', 'sc': {'transport': 'unix', 'profile': SG.PROFILES[k % len(SG.PROFILES)], 'threads': 3, 'per_thread': 2,
                                               'window': 4, 'notifs': 0, 'seg': 'random', 'seed': rng.randrange(1 << 30), 'timeout': 1.5,
                                               'fault': {'kind': 'close-after-requests', 'n': k}}})
-        # the peer stops reading: a 6 MB request is stuck in the transport write, 64 small asynchronous requests follow, then a
+        # the peer stops reading: a 6 MB request is stuck in the transport write, 200 small asynchronous requests follow, then a
         # synchronous call with a 1 s timeout - which must return or raise within it, whatever happens to the others
-        out.append({'kind': 'stall', 'transport': 'unix', 'size': 6 * 1024 * 1024, 'timeout': 4.0, 'burst': 64, 'sync_timeout': 1.0})
+        out.append({'kind': 'stall', 'transport': 'unix', 'size': 6 * 1024 * 1024, 'timeout': 4.0, 'burst': 200, 'sync_timeout': 1.0})
         # a peer that is NOT silent but never answers in time: it trickles notifications, or the reply itself in small pieces, for several
         # timeouts - the synchronous call still ends within its configured timeout
         for i in range(2 if tier == 'quick' else 8):
@@ -106,6 +106,10 @@ class C04(SessionCheck):
             if 'harness_error' in io:
                 return ('C04:harness', io['harness_error'])
             sy = io.get('sync') or {}
+            rf = io['burst'].get('refused')
+            if rf and rf[2]:
+                return ('C04:submission-refused-while-connected', 'request %d of a burst of asynchronous requests was refused (%s: %s) although the session still reported itself connected' % (
+                    io['burst']['accepted'] + 1, rf[0], rf[1]))
             if io['burst']['blocked']:
                 return ('C04:submission-blocks', 'submitting asynchronous requests to a session whose peer stopped reading blocked the caller (%d accepted)' % io['burst']['accepted'])
             if sy.get('state') != 'ok' or sy.get('dt', 0) > case['sync_timeout'] + 3:
